@@ -127,6 +127,10 @@ type Options struct {
 	// ExactlyOnceMax set to this (a misconfigured restart), then with Config.
 	// Warnings of both invocations are kept; PreAdoptFatal has the first outcome.
 	PreAdoptLimits int
+	// PreAdoptFailLoad: AdoptSession is first invoked with the n-th Load
+	// failing (a transient error of the Persistence), then as usual. A client
+	// it may return is closed at once. Warnings of both invocations are kept.
+	PreAdoptFailLoad int
 }
 
 // World is one process generation of a client together with its environment.
@@ -139,14 +143,15 @@ type World struct {
 	Log    []Event
 	Script []string // canonical rendering of the generated actions
 
-	Client        *mqtt.Client
-	Warn          []error
-	Fatal         error
-	AdoptPanic    string // a panic inside AdoptSession (recovered), with stack
-	PreAdoptFatal error  // outcome of the invocation with PreAdoptLimits
-	PreAdoptRan   bool
-	AdoptHung     bool   // AdoptSession did not return (hang oracle)
-	storeDir      string // scratch directory of a filesystem-flavoured store
+	Client          *mqtt.Client
+	Warn            []error
+	Fatal           error
+	AdoptPanic      string // a panic inside AdoptSession (recovered), with stack
+	PreAdoptFatal   error  // outcome of the invocation with PreAdoptLimits
+	PreAdoptRan     bool
+	AdoptHung       bool // AdoptSession did not return (hang oracle)
+	AdoptHungLimits [2]int
+	storeDir        string // scratch directory of a filesystem-flavoured store
 	// PlainRecords: the stored values are bare packets (session made like
 	// VolatileSession does, without the sequence number and checksum trailer)
 	PlainRecords bool
@@ -327,6 +332,16 @@ func New(t TB, o Options) *World {
 					cl.Close() // (the limits sufficed after all)
 				}
 			}()
+		}
+		if o.PreAdoptFailLoad > 0 {
+			w.Store.FailNth('L', o.PreAdoptFailLoad)
+			cl, warn, fatal := w.adoptWatched(&cfg)
+			w.Store.ClearFaults()
+			w.PreAdoptRan, w.PreAdoptFatal = true, fatal
+			preWarn = append(preWarn, warn...)
+			if cl != nil {
+				cl.Close()
+			}
 		}
 		func() {
 			defer func() {
